@@ -1,4 +1,5 @@
 #![allow(dead_code)]
+mod conformance;
 mod driver;
 mod e2;
 mod explore;
@@ -40,7 +41,16 @@ fn main() {
             }
             0
         }
-        Some("selftest") => selftest::run(),
+        Some("selftest") => {
+            let a = selftest::run();
+            let b = conformance::run();
+            if a != 0 || b != 0 {
+                2
+            } else {
+                0
+            }
+        }
+        Some("conformance") => conformance::run() as i32,
         Some("replay") => driver::replay(&specs, args.get(2).map(|s| s.as_str()).unwrap_or("")),
         Some("list") => {
             let id = args.get(2).cloned().unwrap_or_default();
